@@ -63,6 +63,9 @@ impl InputGenerator {
 //@     // follows the ideal one (malformed octets dropped, resynchronisation on the next lead/ASCII byte)
 //@     r matches Some(Input::Char(c)) ==> c@.len() == 1 && valid_utf8(c.spec_bytes()),   // [C02]
 //@     final(self).view().acc == dec_step(old(self).view(), byte).0.acc,   // [C02]
+//@     // C01: only a line terminator byte can produce Enter
+//@     r matches Some(Input::Control(ControlInput::Enter)) ==> byte == 0x0D || byte == 0x0A,   // [C01]
+//@     r matches Some(Input::Char(c)) ==> nul_free(c.spec_bytes()),
 //@     // shape facts used by Cli
 //@     !old(self).view().csi && byte >= 0x20 && !(old(self).view().prev_esc && byte == 0x5B) ==> !(r matches Some(Input::Control(_))),  // [C04]
         let last_byte = self.last_byte;
@@ -110,6 +113,8 @@ impl InputGenerator {
 //@     final(self).utf8.pending() == dec_step(single_s0(last_byte, old(self).utf8.pending()), byte).0.acc,   // [C02]
 //@     r matches Some(Input::Char(c)) ==> c@.len() == 1 && valid_utf8(c.spec_bytes()),   // [C02]
 //@     byte >= 0x20 ==> !(r matches Some(Input::Control(_))),   // [C04]
+//@     r matches Some(Input::Control(ControlInput::Enter)) ==> byte == 0x0D || byte == 0x0A,   // [C01]
+//@     r matches Some(Input::Char(c)) ==> nul_free(c.spec_bytes()),
         let control = match byte {
             codes::BACKSPACE => ControlInput::Backspace,
 
